@@ -351,8 +351,19 @@ impl Resolver<'_> {
                 // yes, this is not a transform, but this is the most appropriate place for it
 
                 let [a, b] = unpack::<2>(func.args)?;
+                let span = a.span.or(b.span);
                 let a = expect_tuple(a, "std.tuple_zip")?;
                 let b = expect_tuple(b, "std.tuple_zip")?;
+
+                // fields are paired by position: a wildcard can only be paired with a wildcard
+                let is_wildcard = |e: &Expr| e.flatten || matches!(e.kind, ExprKind::All { .. });
+                if std::iter::zip(&a, &b).any(|(a, b)| is_wildcard(a) != is_wildcard(b)) {
+                    return Err(Error::new_simple(
+                        "cannot match a column of one relation with all columns of the other",
+                    )
+                    .push_hint("select the columns of both relations explicitly")
+                    .with_span(span));
+                }
 
                 let mut res = Vec::new();
                 for (a, b) in std::iter::zip(a, b) {
